@@ -162,7 +162,7 @@ def run(ctx: Ctx) -> None:
             mc["intended 2 borrowers x 2 rounds, everything on"] = _c(2, 2, "{0,1,2}", 1, 1, ALLK, True, True, (False, False))
             mc["intended 3 borrowers x 1 round, everything on"] = _c(3, 1, "{0,1,2}", 1, 1, ALLK, True, True, (False, False))
             mc["intended 3 borrowers x 1 round, 2 command keys"] = _c(3, 1, "{0,1,2}", 1, 0, ALLK, True, True, (False, False), nkeys=2)
-            mc["intended 2 borrowers x 2 rounds, clock 2"] = _c(2, 2, "{0,1,2}", 2, 1, ALLK, True, True, (False, False))
+            mc["intended 2 borrowers x 2 rounds, clock 2, no death"] = _c(2, 2, "{0,1,2}", 2, 0, ALLK, True, True, (False, False))
         mc_jobs = {k: pool.submit(run_tlc, wd, "Pool", render_cfg(constants=c, invariants=SANITY + CLAUSES),
                                   coverage=(i == 0), cfg_name=f"PO_mc{i}.cfg", timeout=1500, workers=4 if quick else 8)
                    for i, (k, c) in enumerate(mc.items())}
@@ -206,7 +206,7 @@ def run(ctx: Ctx) -> None:
             require_ok(gr, "Pool state graph")
             paths = g.edge_cover_paths(ctx.rng, key=_coarse if quick else _fine)
             if not quick:
-                paths = paths[:350] + g.random_paths(ctx.rng, 60, 60)
+                paths = paths[:250] + g.random_paths(ctx.rng, 40, 60)
             for nodes, labs in paths:
                 beh = g.path_to_behaviour(nodes, labs)
                 res = PW.run_path(beh, g.state(nodes[0]), nb, ctx.rng)
@@ -219,7 +219,7 @@ def run(ctx: Ctx) -> None:
                     ctx.drift.append({"spec": "Pool", "graph": name, **res["drift"]})
                 if res["errors"]:
                     ctx.drift.append({"spec": "Pool", "thread_errors": res["errors"]})
-        for i in range(100 if quick else 1000):
+        for i in range(100 if quick else 700):
             r = ctx.rng
             res = PW.run_random(r, r.choice([2, 2, 3]), r.choice([1, 2]), r.choice([0, 1, 2]), r.random() < 0.7,
                                 r.random() < 0.5, nkeys=r.choice([1, 1, 2]))
